@@ -336,10 +336,11 @@ func runC12(c C12Case, o *run.Obs) error {
 	var plans []plan
 	for _, cl := range []string{"load", "cmp", "marshal"} {
 		n := counts[cl]
-		if cl == "cmp" && n > 40 {
-			// long comparison sequences (Iter does none; diff of large trees many): every position up to 40, then every 3rd
+		if (cl == "cmp" || cl == "marshal") && n > 40 {
+			// long sequences (comparisons of a diff of large trees; marshal calls of keys that are compared through their
+			// marshaled form): every position up to 40, then every 3rd up to 160, then every 17th, and always the last four
 			for p := 1; p <= n; p++ {
-				if p <= 40 || p%3 == 0 {
+				if p <= 40 || (p <= 160 && p%3 == 0) || p%17 == 0 || p > n-4 {
 					plans = append(plans, plan{cl, []int64{int64(p)}})
 				}
 			}
@@ -456,9 +457,9 @@ func init() {
 	run.Register(run.Prop[C12Case]{
 		ID:    "C12",
 		Level: "fault_enumeration",
-		Rule: "case = configuration (no cache, so loads really happen) + tree recipe + residency (in memory / reloaded / reloaded with a dirty region) + one operation of {Insert new, update, Delete, Get, Iter, SeekIter, DiffIter, DiffLinks, Clone, cursor Min/Max/Ceil/Ceil+Forward/Ceil+Backward} with a generated key. A fault-free dry run on an identically rebuilt tree counts the Load, KeyCompare and Marshal calls the operation makes; then EVERY single position of each class is enumerated (KeyCompare beyond 40: every 3rd), plus generated pairs, rebuilding the tree for each. Oracle: if the call returns an error then, with faults cleared, Size, Height and the full contents equal the pre-call model, and the same call retried succeeds with the dry run's result and the normal post-state. " +
+		Rule: "case = configuration (no cache, so loads really happen) + tree recipe + residency (in memory / reloaded / reloaded with a dirty region) + one operation of {Insert new, update, Delete, Get, Iter, SeekIter, DiffIter, DiffLinks, Clone, cursor Min/Max/Ceil/Ceil+Forward/Ceil+Backward} with a generated key. A fault-free dry run on an identically rebuilt tree counts the Load, KeyCompare and Marshal calls the operation makes; then EVERY single position of each class is enumerated (KeyCompare and Marshal sequences longer than 40: every position up to 40, every 3rd up to 160, every 17th beyond, and the last four), plus generated pairs, rebuilding the tree for each. Oracle: if the call returns an error then, with faults cleared, Size, Height and the full contents equal the pre-call model, and the same call retried succeeds with the dry run's result and the normal post-state. " +
 			"Non-trivial = an erroring fault position >= 2 in a mutating operation on a tree with a dirty region (i.e. not a trivially early abort); distinct by case hash",
-		Assumptions: []string{"a call that returns nil although a fault fired, and a panic under fault, are outside the statement: counted in the evidence, not judged", "KeyCompare is wrapped around mast.DefaultKeyCompare (configuration)"},
+		Assumptions: []string{"a call that returns nil although a fault fired, and a panic under fault, are outside the statement: counted in the evidence, not judged", "KeyCompare is wrapped around mast.DefaultKeyCompare built from the configured (fault-injecting) marshaler, as LoadMast builds it"},
 		Gen:         genC12,
 		Run:         runC12,
 	})
